@@ -354,6 +354,21 @@ func (ex *Exec) applyIterator(st *State, fc *FuncContract, pc *preparedCall, env
 		}
 		return map[string]Val{"$yielded": y}
 	}
+	// 0. the call starts: havoc what the iterator itself modifies, assume its `begins` facts
+	preCall := st.clone()
+	ex.havocModifies(st, fc, pc)
+	{
+		e := ex.calleeEnv(st, fc, pc.fn, pc.recv, pc.args)
+		e.old = preCall
+		for _, cl := range it.Begins {
+			t, err := e.elabBool(cl.Expr)
+			if err != nil {
+				ex.fail(pc.call.Pos(), "iterator %s begins: %v", fc.Key, err)
+				continue
+			}
+			st.assume(t)
+		}
+	}
 	// 1. invariant on entry
 	ex.assertInvsNamed(st, "clo-entry", ord, ls, pos, extraOf(yieldedEmpty))
 	// 2. havoc what the literal assigns
